@@ -2189,3 +2189,39 @@ Proof.
   destruct (from_map_elems t l) as [xs|e] eqn:E; cbn [bind]; [|discriminate].
   intros [= <-]. exists xs. split; [reflexivity|]. apply from_map_elems_ok_iff, E.
 Qed.
+
+(* ---- several extractors: the FIRST failing one, in argument order, decides ---- *)
+
+Theorem extract3_err_iff {A B C} (a : res xerr A) (b : res xerr B) (c : res xerr C) e :
+  extract3 a b c = Err e <->
+  a = Err e \/ (exists x, a = Ok x /\ b = Err e) \/ (exists x y, a = Ok x /\ b = Ok y /\ c = Err e).
+Proof.
+  unfold extract3. destruct a as [x|ea]; cbn [bind].
+  - destruct b as [y|eb]; cbn [bind].
+    + destruct c as [z|ec]; cbn [bind].
+      * split; [discriminate|]. intros [H|[(x' & _ & H)|(x' & y' & _ & _ & H)]]; discriminate.
+      * split.
+        -- intros [= <-]. right. right. eauto.
+        -- intros [H|[(x' & _ & H)|(x' & y' & _ & _ & H)]]; try discriminate. injection H as <-. reflexivity.
+    + split.
+      * intros [= <-]. right. left. eauto.
+      * intros [H|[(x' & _ & H)|(x' & y' & _ & H & _)]]; try discriminate. injection H as <-. reflexivity.
+  - split.
+    + intros [= <-]. left. reflexivity.
+    + intros [H|[(x' & H & _)|(x' & y' & H & _)]]; try discriminate. injection H as <-. reflexivity.
+Qed.
+
+Theorem extract3_is_ok {A B C} (a : res xerr A) (b : res xerr B) (c : res xerr C) :
+  is_ok (extract3 a b c) = is_ok a && is_ok b && is_ok c.
+Proof. unfold extract3. destruct a, b, c; reflexivity. Qed.
+
+(* the handler is entered iff every stage succeeds *)
+Theorem handler_entered_iff_all_ok {A B C} (a : res xerr A) (b : res xerr B) (c : res xerr C) :
+  entered (handle (extract3 a b c)) = is_ok a && is_ok b && is_ok c.
+Proof. unfold extract3. destruct a, b, c; reflexivity. Qed.
+
+(* a fault in an earlier stage masks every later one *)
+Corollary earlier_fault_wins {A B C} (b : res xerr B) (c : res xerr C) e :
+  handle (extract3 (@Err xerr A e) b c) = Responded (xerr_status e) /\
+  (forall (x : A) eb, handle (extract3 (Ok x) (@Err xerr B eb) c) = Responded (xerr_status eb)).
+Proof. split; [reflexivity|]. intros x eb. reflexivity. Qed.
